@@ -264,6 +264,8 @@ func c16Scenario1(t *testing.T, enc *json.Encoder, sc *c16Scenario, tag interfac
 				r.print(p.Len * sc.Unit)
 			}
 		}
+		// one last chunk in every scenario: whatever is the log sink now must still receive output
+		r.print(3)
 	}()
 
 	// final observation
